@@ -98,7 +98,7 @@ static var* R;                /* stack-resident root slots (scanned by the colle
 #define CB (R[1])
 static struct seq MA, MB;
 
-static int kindA, kindB, maxlen, nvals, two, same, probe, picky, alias = 1, poisonconcat;
+static int kindA, kindB, maxlen, nvals, two, same, probe, picky, alias = 15, poisonconcat;
 static var poisonobj;         /* an Int carrying the value Picky refuses */
 static var valobj_int0;       /* an Int 0 (source element for the poison concat) */
 static int propC05, propC10, propC12;
@@ -1521,7 +1521,7 @@ int main(int argc, char** argv) {
   same = (int)vf_param_i("same", 0);
   picky = vf_param_is("elem", "picky", "int");
   probe = picky || vf_param_is("elem", "probe", propC05 ? "probe" : "int");
-  alias = (int)vf_param_i("alias", 1);
+  alias = (int)vf_param_i("alias", 15);   /* all aliasing calls: the three defects they exposed are repaired in /repo (4a13eaf, 67f5339, 88e396b) */
   poisonconcat = (int)vf_param_i("poisonconcat", 0);
   const char* mode = vf_param("mode", "bfs");
   if (probe && (kindA == K_TUPLE || (two && kindB == K_TUPLE))) { fprintf(stderr, "h_seq: a Tuple does not own its elements; elem=probe is for array and list\n"); _exit(2); }
